@@ -973,7 +973,7 @@ func UpperBound(typeCtx map[ast.Variable]ast.BaseTerm, typeExprs []ast.BaseTerm)
 		if ast.AnyBound.Equals(typeExpr) {
 			return ast.AnyBound
 		}
-		if union, ok := typeExpr.(ast.ApplyFn); ok && union.Function == UnionType {
+		if union, ok := typeExpr.(ast.ApplyFn); ok && union.Function.Symbol == UnionType.Symbol {
 			worklist = append(worklist, union.Args...)
 			continue
 		}
@@ -1034,7 +1034,7 @@ func intersectType(typeCtx map[ast.Variable]ast.BaseTerm, a, b ast.BaseTerm) ast
 	if SetConforms(typeCtx, b, a) {
 		return b
 	}
-	if aUnion, ok := a.(ast.ApplyFn); ok && aUnion.Function == UnionType {
+	if aUnion, ok := a.(ast.ApplyFn); ok && aUnion.Function.Symbol == UnionType.Symbol {
 		var res []ast.BaseTerm
 		for _, elem := range aUnion.Args {
 			if u := intersectType(typeCtx, elem, b); !u.Equals(EmptyType) {
@@ -1043,16 +1043,54 @@ func intersectType(typeCtx map[ast.Variable]ast.BaseTerm, a, b ast.BaseTerm) ast
 		}
 		return UpperBound(typeCtx, res)
 	}
-	if bUnion, ok := b.(ast.ApplyFn); ok && bUnion.Function == UnionType {
+	if bUnion, ok := b.(ast.ApplyFn); ok && bUnion.Function.Symbol == UnionType.Symbol {
 		var res []ast.BaseTerm
 		for _, elem := range bUnion.Args {
-			if SetConforms(typeCtx, a, elem) {
-				res = append(res, a)
-			} else if SetConforms(typeCtx, elem, a) {
-				res = append(res, elem)
+			if u := intersectType(typeCtx, a, elem); !u.Equals(EmptyType) {
+				res = append(res, u)
 			}
 		}
 		return UpperBound(typeCtx, res)
+	}
+	// Structured types that do not conform to each other can still share
+	// members: two list types share the empty list, two map types the empty
+	// map, and two pair types every pair whose components are in both.
+	if IsListTypeExpression(a) && IsListTypeExpression(b) {
+		aElem, aErr := ListTypeArg(a)
+		bElem, bErr := ListTypeArg(b)
+		if aErr == nil && bErr == nil {
+			return NewListType(intersectType(typeCtx, aElem, bElem))
+		}
+	}
+	if IsMapTypeExpression(a) && IsMapTypeExpression(b) {
+		aKey, aVal, aErr := MapTypeArgs(a)
+		bKey, bVal, bErr := MapTypeArgs(b)
+		if aErr == nil && bErr == nil {
+			return NewMapType(intersectType(typeCtx, aKey, bKey), intersectType(typeCtx, aVal, bVal))
+		}
+	}
+	if IsRelTypeExpression(a) && IsRelTypeExpression(b) {
+		aArgs, aErr := RelTypeArgs(a)
+		bArgs, bErr := RelTypeArgs(b)
+		if aErr == nil && bErr == nil && len(aArgs) == len(bArgs) {
+			res := make([]ast.BaseTerm, len(aArgs))
+			for i := range aArgs {
+				if res[i] = intersectType(typeCtx, aArgs[i], bArgs[i]); res[i].Equals(EmptyType) {
+					return EmptyType
+				}
+			}
+			return NewRelType(res...)
+		}
+	}
+	if aPair, ok := a.(ast.ApplyFn); ok && aPair.Function.Symbol == PairType.Symbol && len(aPair.Args) == 2 {
+		if bPair, ok := b.(ast.ApplyFn); ok && bPair.Function.Symbol == PairType.Symbol && len(bPair.Args) == 2 {
+			left := intersectType(typeCtx, aPair.Args[0], bPair.Args[0])
+			right := intersectType(typeCtx, aPair.Args[1], bPair.Args[1])
+			if left.Equals(EmptyType) || right.Equals(EmptyType) {
+				return EmptyType
+			}
+			return NewPairType(left, right)
+		}
 	}
 
 	return EmptyType
